@@ -84,13 +84,22 @@ def Timestamp.ns (t : Timestamp) : Int := t.secs * 1000000000 + t.nanos
 inductive KeyState | absent | bad | good
 deriving Repr, DecidableEq
 
+/-- a signed tree head as get-sth serves it: size, timestamp, root hash, `TreeHeadSignature` bytes -/
+structure Sth where
+  size : Nat
+  ts : Nat := 0
+  root : Bytes := []
+  sig : Bytes := []
+deriving Repr, DecidableEq
+
 /-- what the library says about a frozen STH: `NewSignatureVerifier` accepts the key, `ToSignedTreeHead`
 accepts the shape, `VerifySTHSignature` accepts the signature. -/
 structure FrozenOracle where
   verifier : Bool
   shape : Bool
   sig : Bool
-  size : Nat := 0
+  /-- the frozen STH of the configuration (uint64 of the signed fields, root hash, signature bytes) -/
+  sth : Sth := { size := 0 }
 deriving Repr, DecidableEq
 
 structure LogConfig where
@@ -139,19 +148,29 @@ def ekuKnown (n : String) : Bool := (Gen.ekuTable.lookup n).isSome
 (Finding: the unchanged loop stops looking at the first `Any`, so unknown names after it pass.) -/
 def ekusOk (l : List String) : Bool := l.all ekuKnown
 
-/-- a usable connection string: exactly one `://`, scheme `mysql` with a DSN the MySQL driver parses, or scheme
-`postgres` / `postgresql` with a string pgx parses — what `storage/mysql.open` and `storage/postgresql.open`
-insist on. (Findings: the unchanged validator indexes `strings.Split(conn, "://")[1]` without a length check,
-and only tests the prefixes `mysql` / `postgres`.) -/
+/-- `len(strings.Split(conn, "://"))`, as far as the validator distinguishes it: 1 (no separator), 2, or 3 standing
+for "three or more". -/
+def connParts (conn : Bytes) : Nat :=
+  match splitOnce conn sepScheme with
+  | none => 1
+  | some (_, rest) => if hasInfix rest sepScheme then 3 else 2
+
+/-- which parser the regenerated `switch conn[0]` sends a scheme to -/
+def schemeParser (scheme : Bytes) : Option String := Gen.connSchemes.lookup scheme
+
+/-- a usable connection string: exactly one `://` (the regenerated guard `Gen.cfgConnPartsBad`), a scheme of the
+regenerated `switch conn[0]` (`Gen.connSchemes`) and a data source name its driver parses — what
+`storage/mysql.open` and `storage/postgresql.open` insist on. -/
 def connOk (c : LogConfig) : Except Reject Unit :=
   if Gen.cfgConnMissing c.conn.length then .error .connMissing
+  else if Gen.cfgConnPartsBad (connParts c.conn) then .error .connDriver
   else match splitOnce c.conn sepScheme with
     | none => .error .connDriver
-    | some (scheme, rest) =>
-      if hasInfix rest sepScheme then .error .connDriver
-      else if scheme = mysqlBytes then (if c.dsnOk then .ok () else .error .connMysql)
-      else if scheme = postgresBytes ∨ scheme = postgresqlBytes then (if c.pgOk then .ok () else .error .connPg)
-      else .error .connDriver
+    | some (scheme, _) =>
+      match schemeParser scheme with
+      | some "mysql" => if c.dsnOk then .ok () else .error .connMysql
+      | some "pg" => if c.pgOk then .ok () else .error .connPg
+      | _ => .error .connDriver
 
 def tsOk : Option Timestamp → Bool
   | none => true
@@ -284,6 +303,11 @@ structure SetupOracle where
   pubConsistent : Bool
   /-- `parseOIDs(reject_extensions)` succeeds -/
   oidsOk : Bool
+  /-- external chain storage: the storage package opens its database handle (when it cannot, the *process exits*:
+  `klog.Exitf` in `storage/{mysql,postgresql}.NewIssuanceChainStorage`; the model has no instance then) -/
+  dbOpens : Bool := true
+  /-- external chain storage: `cache.NewIssuanceChainCache(type, option)` succeeds -/
+  cacheOk : Bool := true
 deriving Repr, DecidableEq
 
 structure Instance where
@@ -291,35 +315,42 @@ structure Instance where
   keys : List Bytes
   /-- 0 frozen, 1 mirror, 2 log -/
   getter : Nat
-  frozenSize : Nat
+  frozen : Sth
+  /-- chains are stored outside the backend (indirect issuance chain service) -/
+  external : Bool := false
 deriving Repr, DecidableEq
 
-/-- `SetUpInstance` on a validated configuration (in-backend chain storage; the CTFE backend opens a database). -/
+/-- `SetUpInstance` on a validated configuration, for both chain-storage backends. -/
 def setUp (c : LogConfig) (o : SetupOracle) : Option Instance :=
   if Gen.setupNeedsRoots c.isMirror o.nRoots then none
   else if !o.rootsLoad then none
   else if !c.isMirror && !o.signerOk then none
   else if !c.isMirror && c.pub == .good && !o.pubConsistent then none
   else if !o.oidsOk then none
-  else if c.storage ≠ Gen.storageBackendTrillian then none
-  else some { paths := endpoints c, keys := handlersOf c,
-              getter := Gen.sthGetterSelect c.frozen.isSome c.isMirror,
-              frozenSize := (c.frozen.map (·.size)).getD 0 }
+  else
+    let inst (ext : Bool) : Instance :=
+      { paths := endpoints c, keys := handlersOf c,
+        getter := Gen.sthGetterSelect c.frozen.isSome c.isMirror,
+        frozen := (c.frozen.map (·.sth)).getD { size := 0 }, external := ext }
+    if c.storage = Gen.storageBackendTrillian then some (inst false)
+    else if c.storage = Gen.storageBackendCtfe then (if o.dbOpens && o.cacheOk then some (inst true) else none)
+    else none
 
 /-! ### get-sth -/
 
-/-- the three STH getters. `backend` is the tree size of the backend's latest root (`none`: the RPC or the
-root check failed); `storage` is the mirror's STH storage (`none`: error); `signOk`: signing succeeded. -/
-def serveSth (inst : Instance) (backend : Option Nat) (storage : Int → Option Nat) (signOk : Bool) : Option Nat :=
+/-- the three STH getters. `backend` is the backend's latest root as get-sth would show it (size, timestamp in ms,
+root hash; `none`: the RPC or the root check failed); `storage` is the mirror's STH storage (`none`: error);
+`sign`: the signature over that tree head (`none`: signing failed). -/
+def serveSth (inst : Instance) (backend : Option Sth) (storage : Int → Option Sth) (sign : Option Bytes) : Option Sth :=
   match inst.getter with
-  | 0 => some inst.frozenSize
+  | 0 => some inst.frozen
   | 1 =>
     match backend with
     | none => none
-    | some n => storage (Gen.mirrorMaxTreeSize n)
+    | some b => storage (Gen.mirrorMaxTreeSize b.size)
   | _ =>
-    match backend with
-    | none => none
-    | some n => if signOk then some n else none
+    match backend, sign with
+    | some b, some sg => some { b with sig := sg }
+    | _, _ => none
 
 end CTV.Model.Config
